@@ -949,10 +949,38 @@ func judgeCW(c *xctx, cs *Case, ex doubles.Exchange, z zoner, query bool, callEr
 		if err != nil {
 			d.add("href", "undecodable", "%v", err)
 		} else {
+			// A relative name may be written with "./" in front (RFC 3986
+			// section 4.2: it must be when its first segment holds a colon);
+			// both spellings resolve to the same resource.
+			want = append([]string(nil), want...)
+			for i := range want {
+				if i >= len(gp) || strings.HasPrefix(want[i], "/") {
+					continue
+				}
+				want[i] = strings.TrimPrefix(want[i], "./")
+				gp[i] = strings.TrimPrefix(gp[i], "./")
+				raw := strings.TrimSpace(got.Hrefs[i])
+				if j := strings.IndexAny(raw, ":/?#"); j > 0 && raw[j] == ':' && isSchemeName(raw[:j]) {
+					d.add("href", "relative name reads as a URI with a scheme", "href %q (for the relative name %q) is a URI of scheme %q, not a relative reference", raw, want[i], raw[:j])
+				}
+			}
 			d.list("href", want, gp)
 		}
 	}
 	reportDiffs(c, cs, d.out, extra)
+}
+
+// isSchemeName: ALPHA *( ALPHA / DIGIT / "+" / "-" / "." ) (RFC 3986 section 3.1).
+func isSchemeName(s string) bool {
+	for i, c := range s {
+		switch {
+		case c >= 'a' && c <= 'z', c >= 'A' && c <= 'Z':
+		case i > 0 && (c >= '0' && c <= '9' || c == '+' || c == '-' || c == '.'):
+		default:
+			return false
+		}
+	}
+	return s != ""
 }
 
 // ---------------------------------------------------------------------------
